@@ -268,6 +268,8 @@ struct Out {
     closed: Option<CloseKind>,
     write_fail: bool,
     released_total: u64,
+    /// The next read fails once with this kind; the stream itself goes on.
+    read_err_once: Option<io::ErrorKind>,
 }
 
 /// What a terminal may do to its connection.
@@ -362,6 +364,12 @@ impl<'a> TermIo<'a> {
         self.out.closed.is_some()
     }
 
+    /// The client's next read fails once with `kind` (a transient error: EINTR, EAGAIN, ETIMEDOUT).
+    pub fn fail_read_once(&mut self, kind: io::ErrorKind) {
+        self.out.read_err_once = Some(kind);
+        *self.wake = true;
+    }
+
     /// Is a delayed release still waiting for its (virtual) time?
     pub fn has_delayed(&self) -> bool {
         !self.out.delayed.is_empty()
@@ -383,6 +391,9 @@ struct State {
     terminal: Option<Box<dyn Terminal>>,
     read_waker: Option<Waker>,
     sleep: Option<Pin<Box<tokio::time::Sleep>>>,
+    /// Transient read errors: when the read cursor stands at `.0`, the next read fails once with
+    /// this kind (EINTR, EAGAIN, ETIMEDOUT ...); the connection itself stays usable.
+    read_errs: Vec<(u64, io::ErrorKind)>,
     dropped: bool,
     log: SharedLog,
     /// Counters of schedule/fault elements that actually fired.
@@ -398,6 +409,7 @@ pub struct Fired {
     pub eof: u64,
     pub reset: u64,
     pub write_err: u64,
+    pub read_err_once: u64,
 }
 
 impl State {
@@ -520,12 +532,14 @@ pub fn sim_conn(
             delayed: VecDeque::new(),
             last_deadline: None,
             closed: None,
+            read_err_once: None,
             write_fail: false,
             released_total: 0,
         },
         terminal: Some(terminal),
         read_waker: None,
         sleep: None,
+        read_errs: Vec::new(),
         dropped: false,
         log,
         fired: Fired::default(),
@@ -554,6 +568,16 @@ impl ConnHandle {
     }
     pub fn fired(&self) -> Fired {
         self.st.lock().unwrap().fired.clone()
+    }
+    /// Plans transient read errors (see `State::read_errs`).
+    pub fn set_read_errors(&self, v: Vec<(u64, io::ErrorKind)>) {
+        self.st.lock().unwrap().read_errs = v;
+    }
+    /// The next read fails once with `kind`, wherever the cursor stands.
+    pub fn fail_next_read(&self, kind: io::ErrorKind) {
+        let mut st = self.st.lock().unwrap();
+        let c = st.cursor;
+        st.read_errs.push((c, kind));
     }
     /// Wire engine: the client is blocked; let the terminal act.
     pub fn idle(&self) -> bool {
@@ -593,6 +617,11 @@ impl AsyncRead for SimConn {
     ) -> Poll<io::Result<()>> {
         let mut st = self.st.lock().unwrap();
         st.fire_due();
+        if let Some(kind) = st.out.read_err_once.take() {
+            st.fired.read_err_once += 1;
+            st.log(Ev::ReadErr);
+            return Poll::Ready(Err(io::Error::new(kind, "sim: transient read error")));
+        }
         if st.out.avail.is_empty() {
             if let Some(kind) = st.out.closed {
                 return match kind {
@@ -630,6 +659,14 @@ impl AsyncRead for SimConn {
         if buf.remaining() == 0 {
             return Poll::Ready(Ok(()));
         }
+        // a transient error planned for this cursor position
+        let cur = st.cursor;
+        if let Some(i) = st.read_errs.iter().position(|(c, _)| *c == cur) {
+            let (_, kind) = st.read_errs.remove(i);
+            st.fired.read_err_once += 1;
+            st.log(Ev::ReadErr);
+            return Poll::Ready(Err(io::Error::new(kind, "sim: transient read error")));
+        }
         // Spurious Pending (never twice in a row, so progress is guaranteed).
         let pct = st.sched.read_pending_pct as u32;
         if pct > 0 && !st.last_read_spurious && st.srng.pct(pct) {
@@ -641,7 +678,12 @@ impl AsyncRead for SimConn {
         }
         st.last_read_spurious = false;
         let chunk = st.next_read_chunk();
-        let n = chunk.min(buf.remaining()).min(st.out.avail.len());
+        let mut n = chunk.min(buf.remaining()).min(st.out.avail.len());
+        // do not read across a position at which a transient error is planned
+        let cur = st.cursor;
+        if let Some(next) = st.read_errs.iter().map(|(c, _)| *c).filter(|c| *c > cur).min() {
+            n = n.min((next - cur) as usize);
+        }
         if n < buf.remaining() {
             st.fired.partial_reads += 1;
         }
